@@ -1,26 +1,34 @@
 #!/bin/bash
-# tools/seed_eval.sh [name...] — apply each seeded change to /repo, run the quick checks of the
-# listed properties, undo, and record the outcome in seeded/<name>/eval.json
+# tools/seed_eval.sh [name...] — evaluate the registered quick checks against each seeded change.
+# Works on a scratch worktree of /repo under /tmp (VF_REPO) with its own output directory (VF_OUT),
+# so /repo, /verif/evidence and /verif/replays are never touched; the worktree is removed at the end.
+# Outcome per seed: seeded/<name>/eval.json.
 cd /verif
-declare -A PROPS=( [C01-1]="C06 C01" [C01-2]="C06" [C03-1]="C12 C03" [C03-2]="C04 C06" [C05-1]="C04 C05" [C05-2]="C05" [C14-1]="C14" [C14-2]="C14" [C02-1]="C14" [C02-2]="C14" [C13-2]="C13" )
+export GOFLAGS=-mod=mod GOPROXY=off GOSUMDB=off GOTOOLCHAIN=local
+declare -A PROPS=( [C01-1]="C06 C01" [C01-2]="C06 C01" [C03-1]="C12 C03" [C03-2]="C04 C06 C03" [C05-1]="C04 C05" [C13-2]="C13" )
 names="$@"; [ -z "$names" ] && names=$(ls seeded | grep -E '^C[0-9]+-[0-9]+$')
+WT=/tmp/seed-eval-wt-$$; OUT=/tmp/seed-eval-out-$$
+git -C /repo worktree add -q --detach $WT HEAD || exit 2
+mkdir -p $OUT
+export VF_REPO=$WT VF_OUT=$OUT
 for n in $names; do
   d=seeded/$n; [ -f $d/patch.diff ] || continue
   props=${PROPS[$n]:-${n%%-*}}
-  git -C /repo checkout -q -- . ; applied=no
-  if git -C /repo apply $PWD/$d/patch.diff 2>/dev/null; then applied=yes; elif git -C /repo apply --3way $PWD/$d/patch.diff >/dev/null 2>&1 && ! git -C /repo diff | grep -q '^[+]<<<<<<<'; then applied=3way; git -C /repo reset -q; fi
+  git -C $WT checkout -q -- . ; git -C $WT clean -fdq; applied=no
+  if git -C $WT apply $PWD/$d/patch.diff 2>/dev/null; then applied=yes; fi
   res="[]"
-  if [ $applied != no ] && (cd /repo && GOFLAGS=-mod=mod go build ./... 2>/dev/null); then
+  if [ $applied != no ] && (cd $WT && go build ./... 2>/dev/null); then
     items=""
     for p in $props; do
-      out=$(./check $p 2>&1); code=$?
-      line=$(echo "$out" | grep -m1 -E "violation:" | cut -c1-300 | sed 's/"/\\"/g')
+      out=$(./bin/symgo check $p -tier quick 2>&1); code=$?
+      line=$(echo "$out" | grep -m1 -E "violation:" | cut -c1-300 | sed 's/\\/\\\\/g; s/"/\\"/g')
       items="$items{\"property\":\"$p\",\"exit\":$code,\"first_violation\":\"$line\"},"
-      rm -f replays/*.json
+      rm -rf $OUT/replays
     done
     res="[${items%,}]"
   fi
-  git -C /repo checkout -q -- . ; git -C /repo reset -q --hard HEAD >/dev/null
   echo "{\"seed\":\"$n\",\"applied\":\"$applied\",\"repo_head\":\"$(git -C /repo rev-parse --short HEAD)\",\"checks\":$res}" > $d/eval.json
   echo "$n applied=$applied $(echo $res | grep -o '"property":"[^"]*","exit":[0-9]*' | tr '\n' ' ')"
 done
+git -C /repo worktree remove --force $WT; rm -rf $OUT
+echo SEED-EVAL-DONE
